@@ -91,6 +91,9 @@ class SymList:
     def pyvc_len(self):
         return S.SymReal(self.length)
 
+    def pyvc_truth(self):
+        return S.SymBool(self.length != 0)
+
     def at(self, i):
         return [z3.Select(a, i) for a in self.arrays]
 
